@@ -1,12 +1,12 @@
 /-
   What a generated client method *does*, read off its AST (Model/PyIR.lean):
 
-    `viewOf`  recognises the body shape client.py emits (`_generate_method`, `_generate_async_method`,
+    `Shape`/`bodyOf`  the body client.py emits (`_generate_method`, `_generate_async_method`,
               `_generate_subscription_method_def`), possibly after the bundled plugins rewrote it
               (leading in-body imports, operation string replaced by a constant, attribute
-              projections behind `model_validate`), as a `MethodView`
-              = (kind, in-body imports, operation text or constant reference, operationName,
-                 variables expression, validated class, projection).
+              projections behind `model_validate`): in-body imports, operation text or constant
+              reference, operationName, variables expression, validated class, projection.
+    `shapeOf` recognises it (driver side).
     `sem`     the denotation of a view inside a package: the request it sends and what it makes of a
               response (`data` as handed over by `get_data`, C12), with pydantic (`validate`) and
               attribute access (`getattr`) as parameters.  A name that is not bound when the line
@@ -21,24 +21,76 @@ import AriadneModel.Model.Plugins
 namespace Ariadne.ClientSem
 open Ariadne Ariadne.Py Ariadne.Plugins
 
-inductive Kind where
-  | sync | async | subscription
-  deriving Repr, DecidableEq, Inhabited
-
 inductive OpSrc where
-  | inline (lines : List String)     -- `query = gql('l1\n' 'l2\n' …)`
-  | const (name : String)            -- `query=NAME_GQL`
-  deriving Repr, DecidableEq, Inhabited
+  | inline (var : String) (lines : List String)   -- `var = gql('l1\n' 'l2\n' …)` … `query=var`
+  | const (name : String)                         -- `query=NAME_GQL`
+  deriving Repr, Inhabited
 
-structure MethodView where
-  kind : Kind
-  bodyImports : List ImportFrom
+/-- the statements after the `variables` assignment -/
+inductive Tail where
+  | call (isAwait : Bool) (respVar dataVar : String)            -- query / mutation (async or sync client)
+  | sub (dataVar : String) (bodyIsList : Bool) (orelse : Nat)   -- subscription: `async for … : yield …`
+  deriving Repr, Inhabited
+
+/-- Everything that determines the body of a generated client method (`bodyOf`): the semantic
+    content (in-body imports, operation source, operationName, variables expression, validated class,
+    projection) and the incidental names the generator chose. -/
+structure Shape where
+  imports : List ImportFrom
   op : OpSrc
   opName : String
+  varsVar : String
+  varsAnn : Ex
   variables : Ex
+  kwargs : Ex
+  tail : Tail
   retClass : String
   proj : List String
   deriving Repr, Inhabited
+
+def Shape.queryName (s : Shape) : String :=
+  match s.op with
+  | .inline q _ => q
+  | .const c => c
+
+def Shape.dataVar (s : Shape) : String :=
+  match s.tail with
+  | .call _ _ d => d
+  | .sub d _ _ => d
+
+/-- `C.model_validate(d).f1.f2…` -/
+def projExpr (c d : String) (fs : List String) : Ex :=
+  fs.foldl (fun e f => .attr e f) (.call (.attr (.name c) "model_validate") [.name d] [] [])
+
+/-- `self.<callee>(query=…, operation_name="…", variables=…, **kwargs)` exactly as
+    `_generate_execute_call` / `_generate_async_generator_loop` build it -/
+def execCall (callee : String) (s : Shape) : Ex :=
+  .call (.attr (.name "self") callee) []
+    [some "query", some "operation_name", some "variables", none]
+    [.name s.queryName, .const s.opName, .name s.varsVar, s.kwargs]
+
+def opStmts (s : Shape) : List Stmt :=
+  match s.op with
+  | .inline q ls => [.simple (.assign q (.call (.name "gql") [.strs ls] [] []))]
+  | .const _ => []
+
+def tailStmts (s : Shape) : List Stmt :=
+  match s.tail with
+  | .call aw r d =>
+    [.simple (.assign r (if aw then .await (execCall "execute" s) else execCall "execute" s)),
+     .simple (.assign d (.call (.attr (.name "self") "get_data") [.name r] [] [])),
+     .simple (.ret (some (projExpr s.retClass d s.proj)))]
+  | .sub d l o =>
+    [.asyncFor (.name d) (execCall "execute_ws" s) [.expr (.yield (projExpr s.retClass d s.proj))] l o]
+
+/-- the method body client.py emits for a shape (`_generate_method`, `_generate_async_method`,
+    `_generate_subscription_method_def`), with whatever the plugins prepended / projected -/
+def bodyOf (s : Shape) : List Stmt :=
+  s.imports.map (fun i => Stmt.simple (.importFrom i)) ++ opStmts s ++
+    [.simple (.annAssign (.name s.varsVar) s.varsAnn (some s.variables))] ++ tailStmts s
+
+/-! #### recognising a shape (used by the driver; `bodyOf (shapeOf m) = m.body` is checked by the
+    harness on every real method) -/
 
 /-- leading `from … import …` statements of a body -/
 def splitImports : List Stmt → List ImportFrom × List Stmt
@@ -47,71 +99,56 @@ def splitImports : List Stmt → List ImportFrom × List Stmt
     (i :: r.1, r.2)
   | rest => ([], rest)
 
-def kwLookup (k : String) : List (Option String) → List Ex → Option Ex
-  | some k' :: ns, v :: vs => if k' = k then some v else kwLookup k ns vs
-  | none :: ns, _ :: vs => kwLookup k ns vs
-  | _, _ => none
-
 /-- `C.model_validate(d).f1.f2…` -> (C, d, [f1, f2, …]) -/
 def projOf : Ex → Option (String × String × List String)
   | .attr e f => (projOf e).map (fun r => (r.1, r.2.1, r.2.2 ++ [f]))
   | .call (.attr (.name c) "model_validate") [.name d] [] [] => some (c, d, [])
   | _ => none
 
-/-- the keyword arguments of `self.execute(...)` / `self.execute_ws(...)`:
-    (query variable or constant, operation name, variables variable) -/
-def execArgs (callee : String) : Ex → Option (String × String × String)
-  | .call (.attr (.name "self") f) [] ns vs =>
-    if f = callee then
-      match kwLookup "query" ns vs, kwLookup "operation_name" ns vs, kwLookup "variables" ns vs with
-      | some (.name q), some (.const o), some (.name v) => some (q, o, v)
-      | _, _, _ => none
-    else none
+/-- (query name, operation name, variables name, ** value) of an execute call -/
+def execArgs (callee : String) : Ex → Option (String × String × String × Ex)
+  | .call (.attr (.name "self") f) [] [some "query", some "operation_name", some "variables", none]
+      [.name q, .const o, .name v, kw] => if f = callee then some (q, o, v, kw) else none
   | _ => none
 
-/-- the part of the body after the `variables` assignment -/
-def tailView (isAsync : Bool) : List Stmt → Option (Kind × (String × String × String) × (String × String × List String))
+def tailOf : List Stmt → Option (Tail × (String × String × String × Ex) × (String × String × List String))
   | [.simple (.assign r e), .simple (.assign d (.call (.attr (.name "self") "get_data") [.name r'] [] [])),
       .simple (.ret (some rv))] =>
     if r = r' then
       match e with
       | .await c =>
-        if isAsync then
-          match execArgs "execute" c, projOf rv with
-          | some a, some p => if p.2.1 = d then some (.async, a, p) else none
-          | _, _ => none
-        else none
+        match execArgs "execute" c, projOf rv with
+        | some a, some p => if p.2.1 = d then some (.call true r d, a, p) else none
+        | _, _ => none
       | c =>
-        if !isAsync then
-          match execArgs "execute" c, projOf rv with
-          | some a, some p => if p.2.1 = d then some (.sync, a, p) else none
-          | _, _ => none
-        else none
+        match execArgs "execute" c, projOf rv with
+        | some a, some p => if p.2.1 = d then some (.call false r d, a, p) else none
+        | _, _ => none
     else none
-  | [.asyncFor (.name d) it [.expr (.yield rv)] _ _] =>
-    if isAsync then
-      match execArgs "execute_ws" it, projOf rv with
-      | some a, some p => if p.2.1 = d then some (.subscription, a, p) else none
-      | _, _ => none
-    else none
+  | [.asyncFor (.name d) it [.expr (.yield rv)] l o] =>
+    match execArgs "execute_ws" it, projOf rv with
+    | some a, some p => if p.2.1 = d then some (.sub d l o, a, p) else none
+    | _, _ => none
   | _ => none
 
-def viewOf (m : Method) : Option MethodView :=
+def shapeOf (m : Method) : Option Shape :=
   let (imps, rest) := splitImports m.body
   match rest with
   | .simple (.assign q (.call (.name "gql") [.strs lines] [] [])) ::
-      .simple (.annAssign (.name v) _ (some dict)) :: tail =>
-    match tailView m.isAsync tail with
-    | some (k, (q', o, v'), (c, _, fs)) =>
+      .simple (.annAssign (.name v) ann (some dict)) :: tail =>
+    match tailOf tail with
+    | some (t, (q', o, v', kw), (c, _, fs)) =>
       if q' = q ∧ v' = v then
-        some { kind := k, bodyImports := imps, op := .inline lines, opName := o, variables := dict, retClass := c, proj := fs }
+        some { imports := imps, op := .inline q lines, opName := o, varsVar := v, varsAnn := ann, variables := dict,
+               kwargs := kw, tail := t, retClass := c, proj := fs }
       else none
     | none => none
-  | .simple (.annAssign (.name v) _ (some dict)) :: tail =>
-    match tailView m.isAsync tail with
-    | some (k, (q', o, v'), (c, _, fs)) =>
+  | .simple (.annAssign (.name v) ann (some dict)) :: tail =>
+    match tailOf tail with
+    | some (t, (q', o, v', kw), (c, _, fs)) =>
       if v' = v then
-        some { kind := k, bodyImports := imps, op := .const q', opName := o, variables := dict, retClass := c, proj := fs }
+        some { imports := imps, op := .const q', opName := o, varsVar := v, varsAnn := ann, variables := dict,
+               kwargs := kw, tail := t, retClass := c, proj := fs }
       else none
     | none => none
   | _ => none
@@ -157,13 +194,13 @@ def builtinNames : List String :=
   ["str", "int", "float", "bool", "object", "bytes", "list", "dict", "None", "True", "False", "self"]
 
 /-- where a name used inside a method body comes from at run time: in-body imports first -/
-def resolveRuntime (pkg : Pkg) (v : MethodView) (n : String) : Option (String × String) :=
-  match alookup n (importBindings v.bodyImports) with
+def resolveRuntime (pkg : Pkg) (v : Shape) (n : String) : Option (String × String) :=
+  match alookup n (importBindings v.imports) with
   | some r => some r
   | none => alookup n (importBindings (topImports pkg.client))
 
 /-- the string a constant imported from the operations module holds -/
-def constValue (pkg : Pkg) (v : MethodView) (c : String) : Option String :=
+def constValue (pkg : Pkg) (v : Shape) (c : String) : Option String :=
   match resolveRuntime pkg v c, pkg.ops with
   | some (q, n), some (opsName, f) =>
     if q = "." ++ opsName then (alookup n f.assigns).map String.join else none
@@ -186,9 +223,9 @@ def Outcome.map {α β} (f : α → β) : Outcome α → Outcome β
   | .invalid e => .invalid e
   | .nameError n => .nameError n
 
-def request (pkg : Pkg) (v : MethodView) : Outcome Request :=
+def request (pkg : Pkg) (v : Shape) : Outcome Request :=
   match v.op with
-  | .inline ls =>
+  | .inline _ ls =>
     if (moduleNames pkg.client).contains "gql" then .ok ⟨String.join ls, v.opName, v.variables⟩
     else .nameError "gql"
   | .const c =>
@@ -201,7 +238,7 @@ variable {PyV : Type}
 -- pydantic: `validate (qualified module, class) data`; CPython: `getattr name obj`
 variable (validate : String × String → J → Except String PyV) (getattr : String → PyV → PyV)
 
-def respond (pkg : Pkg) (v : MethodView) (data : J) : Outcome PyV :=
+def respond (pkg : Pkg) (v : Shape) (data : J) : Outcome PyV :=
   match resolveRuntime pkg v v.retClass with
   | none => .nameError v.retClass
   | some cls =>
@@ -210,7 +247,7 @@ def respond (pkg : Pkg) (v : MethodView) (data : J) : Outcome PyV :=
     | .error e => .invalid e
 
 /-- request sent, and value returned (per call; per received frame for a subscription) -/
-def sem (pkg : Pkg) (v : MethodView) : Outcome Request × (J → Outcome PyV) :=
+def sem (pkg : Pkg) (v : Shape) : Outcome Request × (J → Outcome PyV) :=
   (request pkg v, respond validate getattr pkg v)
 end
 
@@ -247,11 +284,11 @@ def annScopedB (m : Module) : Bool :=
 
 /-- names a recognised method body needs at call time, with the reason -/
 def runtimeUnresolved (pkg : Pkg) (md : Method) : List String :=
-  match viewOf md with
+  match shapeOf md with
   | none => []
   | some v =>
-    let bound := (importBindings v.bodyImports).map (·.1) ++ moduleNames pkg.client ++ builtinNames ++ md.args.map (·.1) ++ ["kwargs"]
-    let need := (match v.op with | .inline _ => ["gql"] | .const c => [c]) ++ [v.retClass] ++ exNames v.variables
+    let bound := (importBindings v.imports).map (·.1) ++ moduleNames pkg.client ++ builtinNames ++ md.args.map (·.1) ++ ["kwargs"]
+    let need := (match v.op with | .inline _ _ => ["gql"] | .const c => [c]) ++ [v.retClass] ++ exNames v.variables
     let missing := need.filter (fun n => !bound.contains n)
     let constMissing := match v.op with
       | .const c => if (constValue pkg v c).isSome then [] else [c]
